@@ -8,9 +8,14 @@ pane, one after the other in one session, and the captured screen must equal the
 resizes, show / hide / toggle of the header and input sections, and - in sessions over long lines - queries that match
 at the start, in the middle and at the very end of the lines; at every settle point the screen is captured (tmux
 capture-pane) next to the state the hooks logged, and TLC decides rows = Render(state, geometry, cfg).
+Lines with TAB characters (--tabstop 1 / 4 / 8, TABs before / inside / after the matched part, windows the expanded
+line fits exactly / by one column less, plain and with --ansi coloured parts) and queries wider than the prompt area
+(ASCII and with East Asian wide characters at the start / in the middle / at the end, the cursor walked with
+beginning-of-line / backward-char / forward-char / end-of-line, inside --border, --layout=reverse, --info=inline) have
+E families (Gen_ScreenT*, Gen_ScreenP*) and J sessions of their own.
 Python only drives, waits for the trace to settle, and splits strings into cells.
 """
-import json, time, unicodedata, threading
+import json, os, re, time, unicodedata, threading
 from concurrent.futures import ThreadPoolExecutor
 import sessions, tmuxdrv
 from vlib import Infra, judge
@@ -36,7 +41,21 @@ SIZES_H = [4, 5, 6, 7, 8, 10, 12, 16, 24]
 
 
 def cells(s):
-    return list(s)
+    """A string as a sequence of cells (FzfScreen): one character each, the cell "TAB" for a TAB character."""
+    return ["TAB" if ch == "\t" else ch for ch in s]
+
+
+def uncells(cs):
+    return "".join("\t" if x == "TAB" else x for x in cs)
+
+
+SGR = re.compile("\x1b\\[[0-9;]*m")
+
+
+def plain(scfg, text):
+    """--ansi: the line without the colour sequences the generator put in (only SGR sequences are ever generated;
+    what --ansi does to arbitrary input is C11's subject)."""
+    return SGR.sub("", text) if scfg.ansi else text
 
 
 def width_table(texts):
@@ -54,8 +73,9 @@ class SCfg:
     """A session configuration: fzf arguments and the configuration record of FzfScreen."""
     FIELDS = ("layout", "info", "sep", "header", "nhl", "header_first", "inputless", "prompt", "pointer", "marker",
               "ellipsis", "multi", "cycle", "scroll_off", "disabled", "hscroll", "hscroll_off", "keep_right", "scrollbar",
-              "border", "nosort")
-    DEFAULTS = {"hscroll": False, "hscroll_off": None, "keep_right": False, "scrollbar": False, "border": False, "nosort": False}
+              "border", "nosort", "tabstop", "ansi")
+    DEFAULTS = {"hscroll": False, "hscroll_off": None, "keep_right": False, "scrollbar": False, "border": False, "nosort": False,
+                "tabstop": None, "ansi": False}
 
     def __init__(self, **kw):
         for f in self.FIELDS:
@@ -97,6 +117,12 @@ class SCfg:
             extra.append("--border")
         if self.nosort:
             extra.append("--no-sort")
+        if self.tabstop is not None:
+            extra.append("--tabstop=%d" % self.tabstop)
+        if self.ansi:
+            # (with --no-color the colours of the input are dropped while reading; what is observed - the text of the
+            # screen - is the same with colours on)
+            extra += ["--ansi", "--color=dark"]
         return sessions.Cfg(layout=self.layout, cycle=self.cycle, multi=self.multi, scroll_off=self.scroll_off,
                             inputless=self.inputless, disabled=self.disabled, extra=extra)
 
@@ -109,13 +135,14 @@ class SCfg:
     def spec(self, items):
         return {"layout": self.layout, "info": self.info, "sep": self.sep,
                 "header": [cells(x) for x in self.header.split("\n")] if self.header is not None else [],
-                "hlines": [cells(x) for x in (items[:self.nhl] + [""] * self.nhl)[:self.nhl]], "headerFirst": self.header_first, "inputless": self.inputless,
+                "hlines": [cells(plain(self, x)) for x in (items[:self.nhl] + [""] * self.nhl)[:self.nhl]], "headerFirst": self.header_first, "inputless": self.inputless,
                 "prompt": cells("> " if self.prompt is None else self.prompt),
                 "pointer": cells(">" if self.pointer is None else self.pointer),
                 "marker": cells(">" if self.marker is None else self.marker),
                 "ellipsis": cells(".." if self.ellipsis is None else self.ellipsis),
                 "hscroll": self.hscroll, "hscrollOff": 10 if self.hscroll_off is None else self.hscroll_off,
-                "keepRight": self.keep_right, "scrollbar": ["|"] if self.scrollbar else [], "border": self.border}
+                "keepRight": self.keep_right, "scrollbar": ["|"] if self.scrollbar else [], "border": self.border,
+                "tabstop": 8 if self.tabstop is None else self.tabstop}
 
     def area(self, w, h):
         """Size of the finder's area in a w x h terminal as the hooks log it (--border: a box with one blank column on
@@ -171,7 +198,8 @@ def make_steps(rng, n, multi, w, h, vis=0.09):
 
 
 # ------------------------------------------------------------------------------------------------ driving one session
-VIEW = ("input", "cy", "offset", "sel", "multi", "n", "count", "reading", "maxItems", "track", "xoffset")
+# (not the scroll offset of the prompt line: beginning-of-line resets the variable without asking for a redraw)
+VIEW = ("input", "cx", "cy", "offset", "sel", "multi", "n", "count", "reading", "maxItems", "track")
 
 
 def view(e):
@@ -265,6 +293,7 @@ def snapshot(s, scfg, items, step, sid, slow, stats):
     last = term[-1]
     w, h = pane_size(s)
     lists = [e for e in term if e["ev"] == "term.list"]
+    flushes = [e for e in term if e["ev"] == "term.render" and e["what"] == "flush"]
     pattern = list_pattern(tr)
     if (not lists or "ids" not in lists[-1] or last["reading"] or last["n"] != len(lists[-1]["ids"]) or pattern is None
             or search_pending(tr, last)):
@@ -276,11 +305,12 @@ def snapshot(s, scfg, items, step, sid, slow, stats):
     # the show / hide / toggle actions as the program logged them; the flags are the specification's business (VisAfter)
     vis = [e["act"] for e in tr if e["ev"] == "term.act" and e["act"] in VIS_ACTS]
     return {"sid": sid, "step": step, "seq": last["seq"], "w": w, "h": h, "wide": wide, "zero": zero, "cfg": scfg.spec(items),
-            "st": {"input": cells(last["input"]), "cx": last["cx"], "xoffset": last["xoffset"], "list": ids, "texts": [cells(t) for t in texts],
+            # xoffset: the scroll offset of the prompt line when the screen was last flushed (Judge_Screen.CoreX)
+            "st": {"input": cells(last["input"]), "cx": last["cx"], "xoffset": flushes[-1]["xoffset"], "list": ids, "texts": [cells(t) for t in texts],
                    "sel": last["sel"], "multi": last["multi"], "cy": last["cy"], "offset": last["offset"], "count": last["count"], "track": last["track"],
                    "pattern": cells(pattern)},
             "vis": vis, "hmissing": max(0, scfg.nhl - len(items)), "filtered": not lists[-1]["pass"], "maxItems": last["maxItems"],
-            "orig": [cells(items[i + scfg.nhl]) if 0 <= i + scfg.nhl < len(items) else None for i in ids],
+            "orig": [cells(plain(scfg, items[i + scfg.nhl])) if 0 <= i + scfg.nhl < len(items) else None for i in ids],
             "rows": [cells(r) for r in rows]}
 
 
@@ -359,23 +389,41 @@ def e_groups(cases):
     return out
 
 
-def e_cfg(c, searching):
+def e_cfg(c, searching, ansi=False):
     """searching: the search is enabled (--no-sort: the list is the input as long as every line matches)."""
-    return SCfg(layout=c["layout"], info=c["info"], sep=c["sep"], header="\n".join("".join(x) for x in c["header"]) if c["header"] else None,
+    return SCfg(tabstop=c["tabstop"], ansi=ansi, layout=c["layout"], info=c["info"], sep=c["sep"], header="\n".join("".join(x) for x in c["header"]) if c["header"] else None,
                 nhl=len(c["hlines"]), header_first=c["headerFirst"], inputless=c["inputless"], prompt=None, pointer=None, marker=None,
                 ellipsis="".join(c["ellipsis"]), multi="inf", cycle=False, scroll_off=0, disabled=not searching, nosort=searching,
                 hscroll=c["hscroll"], hscroll_off=c["hscrollOff"], keep_right=c["keepRight"], scrollbar=bool(c["scrollbar"]),
                 border=c["border"])
 
 
-def e_actions(st):
-    """Two action lists that put the finder into the exported state (the list is the input).
+def e_actions(case):
+    """The POSTs that put the finder into the exported state (the list is the input): [(action list, settle afterwards)].
     (1) The input section is shown first (a hidden one discards every change of the query); once the query is set both
     sections get the exported visibility: one POST = one redraw takes the screen from the previous case's layout to
     this one's.  (2) Selection and cursor, after the first redraw: `pos` scrolls at once, by the size the list window
-    has at that moment, and the windows are only rebuilt when the screen is drawn."""
+    has at that moment, and the windows are only rebuilt when the screen is drawn.
+    A case with a walk (prompt family): the query is set with the cursor at its beginning and drawn (that resets the
+    scroll offset of the prompt line, whatever the previous case left), then every step of the walk is one POST of
+    beginning-of-line / end-of-line / forward-char+... / backward-char+... and one rendition."""
+    st = case["st"]
     acts = ["show-input", "deselect-all", "change-multi" if st["multi"] == 2147483647 else "change-multi(%d)" % st["multi"],
-            "change-query(%s)" % "".join(st["input"]) if st["input"] else "clear-query", "pos(1)"]
+            "change-query(%s)" % uncells(st["input"]) if st["input"] else "clear-query", "pos(1)"]
+    if "walk" in case:
+        out = [("+".join(acts + ["beginning-of-line", "show-header"]), True)]
+        cur, n = 0, len(st["input"])
+        for tgt in case["walk"]:
+            if tgt == cur:
+                continue
+            if tgt == 0:
+                out.append(("beginning-of-line", True))
+            elif tgt == n:
+                out.append(("end-of-line", True))
+            else:
+                out.append(("+".join(["forward-char" if tgt > cur else "backward-char"] * abs(tgt - cur)), True))
+            cur = tgt
+        return out
     acts += ["show-header" if st["showHeader"] else "hide-header"]
     if st["hideInput"]:
         acts += ["hide-input"]
@@ -383,20 +431,38 @@ def e_actions(st):
     for i in st["sel"]:
         acts2 += ["pos(%d)" % (st["list"].index(i) + 1), "select"]
     acts2 += ["pos(1)", "pos(%d)" % (st["cy"] + 1)]
-    return "+".join(acts), "+".join(acts2)
+    return [("+".join(acts), True), ("+".join(acts2), False)]
 
 
 def e_expected(case):
     st = case["st"]
-    return {"rows": case["rows"], "input": st["input"], "cy": st["cy"], "offset": st["offset"], "multi": st["multi"], "count": st["count"],
-            "sel": [st["list"].index(i) for i in st["sel"]], "n": len(st["list"]), "pattern": st["pattern"], "maxItems": case["maxItems"]}
+    return {"rows": case["rows"], "input": st["input"], "cx": st["cx"], "xoffset": st["xoffset"], "cy": st["cy"], "offset": st["offset"],
+            "multi": st["multi"], "count": st["count"], "sel": [st["list"].index(i) for i in st["sel"]], "n": len(st["list"]),
+            "pattern": st["pattern"], "maxItems": case["maxItems"]}
 
 
-def e_session(ctx, fzf, sid, group, searching, slow=False):
-    """Runs one group of cases; returns [(case, got, record)] where got has the shape of e_expected."""
+E_OBSERVED = ("rows", "xoffset")        # what the finder makes of the state it was put into (the rest is the state itself)
+
+
+def colour_item(text, k):
+    """The line with some of its characters coloured (SGR sequences): a head of 1..3 characters - it may end right before
+    a TAB or contain one - and, for every other line, a part further on."""
+    n = 1 + k % 3
+    out = "\x1b[3%dm%s\x1b[m%s" % (1 + k % 6, text[:n], text[n:n + 2])
+    rest = text[n + 2:]
+    if k % 2 and len(rest) > 3:
+        return out + "\x1b[1;4m" + rest[:3] + "\x1b[0m" + rest[3:]
+    return out + rest
+
+
+def e_session(ctx, fzf, sid, group, searching, slow=False, ansi=False):
+    """Runs one group of cases; returns [(case, got, record)] where got has the shape of e_expected.
+    ansi: the input lines are coloured and read with --ansi (the text of the screen must be the same)."""
     c0 = group[0]
-    scfg = e_cfg(c0["cfg"], searching)
-    items = ["".join(x) for x in c0["cfg"]["hlines"]] + ["".join(x) for x in c0["items"]]
+    scfg = e_cfg(c0["cfg"], searching, ansi)
+    items = [uncells(x) for x in c0["cfg"]["hlines"]] + [uncells(x) for x in c0["items"]]
+    if ansi:
+        items = [colour_item(x, k) for k, x in enumerate(items)]
     out = []
     s = start_session(ctx, fzf, scfg, items, c0["w"], c0["h"])
     stats = {}
@@ -411,20 +477,21 @@ def e_session(ctx, fzf, sid, group, searching, slow=False):
                 s.resize(case["w"], case["h"])
                 s.wait_for(lambda tr: sum(1 for e in tr if e["ev"] == "term.render" and e["what"] == "flush") > n_flush,
                            timeout=120, what="redraw after resize")
-            for acts in e_actions(case["st"]):
+            for acts, wait in e_actions(case):
                 n_loop = s.count("term.loop")
                 st, _ = s.post(acts, timeout=60)
                 if st != 200:
                     raise Infra("POST -> %d" % st)
                 s.wait_count("term.loop", n_loop + 1, timeout=120)
-                if acts.startswith("show-input"):
+                if wait:
                     settle(s, slow, scfg)
             r = snapshot(s, scfg, items, 0, sid, slow, stats)
             if r is None:
                 raise Infra("E session %d: no settled screen" % sid)
             if (r["w"], r["h"]) != (case["w"], case["h"]):
                 raise Infra("E session %d: pane is %dx%d, wanted %dx%d" % (sid, r["w"], r["h"], case["w"], case["h"]))
-            out.append((case, {"rows": r["rows"], "input": r["st"]["input"], "cy": r["st"]["cy"], "offset": r["st"]["offset"],
+            out.append((case, {"rows": r["rows"], "input": r["st"]["input"], "cx": r["st"]["cx"], "xoffset": r["st"]["xoffset"],
+                               "cy": r["st"]["cy"], "offset": r["st"]["offset"],
                                "multi": r["st"]["multi"], "count": r["st"]["count"], "sel": sorted(r["st"]["sel"]),
                                "n": len(r["st"]["list"]), "pattern": r["st"]["pattern"], "maxItems": r["maxItems"]}, r))
         s.post("abort", final=True)
@@ -434,7 +501,7 @@ def e_session(ctx, fzf, sid, group, searching, slow=False):
         s.close()
 
 
-# the two families of exported cases: name -> (quick cfg, thorough cfg, search enabled, sessions (quick, thorough; None = one
+# the families of exported cases: name -> (quick cfg, thorough cfg, search enabled, sessions (quick, thorough; None = one
 # per exported configuration), cases per session (quick, thorough), first session id, least number of cases, slices of the
 # configuration space in quick)
 E_FAMILIES = {
@@ -442,15 +509,81 @@ E_FAMILIES = {
     "layout": ("Gen_Screen_q.cfg", "Gen_Screen.cfg", False, (14, None), (16, 24), 1000, 1000, 4),
     # lines too long for the window x pattern position x hscroll options x scrollbar x border (search enabled)
     "hscroll": ("Gen_ScreenH_q.cfg", "Gen_ScreenH.cfg", True, (10, 180), (14, 20), 3000, 1000, 12),
+    # lines with TABs x tabstop x window width in steps of one column x pattern x hscroll x border (search enabled); every
+    # other session reads the lines with coloured parts (--ansi)
+    "tabs": ("Gen_ScreenT_q.cfg", "Gen_ScreenT.cfg", True, (10, 150), (14, 22), 5000, 1000, 1),
+    # queries wider than the prompt area (wide characters at the start / in the middle / at the end) x walks of the cursor x
+    # window width x layout x info style x border (search disabled)
+    "prompt": ("Gen_ScreenP_q.cfg", "Gen_ScreenP.cfg", False, (8, 60), (14, 22), 7000, 300, 1),
 }
+E_ANSI = ("tabs",)
 
 
-def e_generate(ctx, name):
+def e_ansi(name, ix):
+    return name in E_ANSI and ix % 2 == 1
+
+
+# ---- queries that are wider than the prompt area
+P_ASCII = "abcdefghijklmnopqrstuvwxyz0123456789ABCDEFGHIJKLMNOPQRSTUVWXYZ-_./:+"
+P_WIDE = ["\ud55c\uae00", "\u6f22\u5b57", "\uff21\uff22\uff23"]      # Hangul, Han, fullwidth Latin: two columns each
+
+
+def long_query(rng, kind):
+    """(query, interesting cursor positions): kind in ascii / wide-start / wide-middle / wide-end / wide-all / mixed / short"""
+    def run(n):
+        return "".join(rng.choice(P_ASCII) for _ in range(n))
+
+    def block(n):
+        b = rng.choice(P_WIDE)
+        return (b * n)[:max(2, n)]
+    if kind == "ascii":
+        parts = [run(rng.randint(30, 60))]
+    elif kind == "wide-start":
+        parts = [block(rng.randint(4, 12)), run(rng.randint(24, 40))]
+    elif kind == "wide-middle":
+        parts = [run(rng.randint(8, 20)), block(rng.randint(4, 12)), run(rng.randint(10, 26))]
+    elif kind == "wide-end":
+        parts = [run(rng.randint(24, 40)), block(rng.randint(4, 12))]
+    elif kind == "wide-all":
+        parts = [block(rng.randint(14, 30))]
+    elif kind == "mixed":
+        parts = [rng.choice([run(rng.randint(1, 6)), block(rng.randint(2, 5))]) for _ in range(rng.randint(6, 10))]
+    else:
+        parts = [run(rng.randint(3, 8)), block(2)]
+    q = "".join(parts)
+    n = len(q)
+    marks, at = {0, 1, n - 1, n, n // 2}, 0
+    for part in parts:                                  # the borders between narrow and wide runs, and one step beyond
+        at += len(part)
+        marks |= {at - 1, at, at + 1}
+    return q, sorted(m for m in marks if 0 <= m <= n)
+
+
+P_KINDS = ("wide-start", "ascii", "wide-middle", "short", "wide-end", "mixed", "wide-all", "wide-start")
+
+
+def make_pin(ctx):
+    """The input of the prompt family's export: queries with the cursor positions the walks go through."""
+    rng = ctx.rng
+    qs = []
+    for k in range(ctx.pick(6, 16)):
+        q, marks = long_query(rng, P_KINDS[k % len(P_KINDS)])
+        pos = {0, len(q)} | set(rng.sample(marks, min(3, len(marks))))
+        qs.append({"q": cells(q), "pos": sorted(pos)})
+    path = os.path.join(ctx.work, "prompt-queries.json")
+    with open(path, "w") as fh:
+        fh.write(json.dumps({"queries": qs, "wide": sorted(set("".join(P_WIDE)))}) + "\n")
+    return path
+
+
+def e_generate(ctx, name, pin=None):
     """TLC exports the cases; quick: one slice of the configurations (chosen by the seed), thorough: all of them."""
     qcfg, tcfg, _, _, _, _, min_cases, qslices = E_FAMILIES[name]
     slices = ctx.pick(qslices, 1)
-    gen = ctx.tlc("MC_Screen", ctx.pick(qcfg, tcfg), workers=ctx.pick(4, 12), timeout=3000, label="gen-" + name,
-                  env={"VERIF_SLICES": slices, "VERIF_SLICE": ctx.seed % slices})
+    env = {"VERIF_SLICES": slices, "VERIF_SLICE": ctx.seed % slices}
+    if name == "prompt":
+        env["VERIF_PIN"] = pin
+    gen = ctx.tlc("MC_Screen", ctx.pick(qcfg, tcfg), workers=ctx.pick(4, 12), timeout=3000, label="gen-" + name, env=env)
     cases = gen.json_items("CASE")
     if len(cases) < min_cases:
         raise Infra("TLC exported only %d cases (%s)" % (len(cases), ctx.pick(qcfg, tcfg)))
@@ -474,7 +607,7 @@ def e_sessions(ctx, fzf, name, groups, workers=5):
     results = {}
 
     def do(ix):
-        return ix, e_session(ctx, fzf, base_sid + ix, groups[ix], searching)
+        return ix, e_session(ctx, fzf, base_sid + ix, groups[ix], searching, ansi=e_ansi(name, ix))
     with ThreadPoolExecutor(max_workers=workers) as ex:
         for ix, res in ex.map(do, range(len(groups))):
             results[ix] = res
@@ -498,7 +631,7 @@ def e_evaluate(ctx, fzf, name, cases, groups, ngroups, results):
             (known_only if all(v.startswith("known ") for v in vs) else unknown).append(ix)
     for ix in unknown[:4] + known_only[:1]:
         # reproduce: the same group again, settling slowly
-        res2 = e_session(ctx, fzf, base_sid + 500 + ix, groups[ix], searching, slow=True)
+        res2 = e_session(ctx, fzf, base_sid + 500 + ix, groups[ix], searching, slow=True, ansi=e_ansi(name, ix))
         bad2 = [(c, got, r) for c, got, r in res2 if got != e_expected(c)]
         if not bad2:
             raise Infra("E group %s/%d: mismatch not reproduced" % (name, ix))
@@ -512,20 +645,27 @@ def e_evaluate(ctx, fzf, name, cases, groups, ngroups, results):
                 continue
             reported.add(v)
             exp = e_expected(c)
-            if not v.startswith("known ") and {k2: got[k2] for k2 in got if k2 != "rows"} != {k2: exp[k2] for k2 in exp if k2 != "rows"}:
+            scfg = e_cfg(c["cfg"], searching, e_ansi(name, ix))
+            state = lambda d: {k2: ("".join(d[k2]) if k2 in ("input", "pattern") else d[k2]) for k2 in d if k2 not in E_OBSERVED}
+            if not v.startswith("known ") and state(got) != state(exp):
                 raise Infra("E group %s/%d (%s, %dx%d, header %s, input %s): could not put fzf into the exported state: want %s got %s [%s]; screen:\n%s" % (
-                    name, ix, e_cfg(c["cfg"], searching).describe(), c["w"], c["h"], "shown" if c["st"]["showHeader"] else "hidden",
-                    "hidden" if c["st"]["hideInput"] else "shown", json.dumps({k2: exp[k2] for k2 in exp if k2 != "rows"}),
-                    json.dumps({k2: got[k2] for k2 in got if k2 != "rows"}), v, "\n".join("".join(x) for x in got["rows"])))
-            scfg = e_cfg(c["cfg"], searching)
+                    name, ix, scfg.describe(), c["w"], c["h"], "shown" if c["st"]["showHeader"] else "hidden",
+                    "hidden" if c["st"]["hideInput"] else "shown", json.dumps(state(exp)), json.dumps(state(got)), v,
+                    "\n".join("".join(x) for x in got["rows"])))
             prev = [x for x, _, _ in res2]
             before = prev[prev.index(c) - 1] if prev.index(c) > 0 else None
             what = "%s, %dx%d, state %s%s: the specification predicts the screen\n%s\nbut the terminal shows\n%s" % (
-                scfg.describe(), c["w"], c["h"], json.dumps({k2: exp[k2] for k2 in exp if k2 != "rows"}),
+                scfg.describe(), c["w"], c["h"], json.dumps(state(exp), ensure_ascii=False),
                 " [header %s, input %s]" % ("shown" if c["st"]["showHeader"] else "hidden", "hidden" if c["st"]["hideInput"] else "shown"),
                 "\n".join("".join(x) for x in exp["rows"]), "\n".join("".join(x) for x in got["rows"]))
+            if got["xoffset"] != exp["xoffset"]:
+                what += "\n(scroll offset of the prompt line: predicted %d, logged %d)" % (exp["xoffset"], got["xoffset"])
+            if "walk" in c:
+                what += "\n(actions: %s)" % " ; ".join(a for a, _ in e_actions(c))
+            if ansi_lines(c, e_ansi(name, ix)):
+                what += "\n(input lines: %s)" % json.dumps(ansi_lines(c, True))
             if before is not None:
-                what += "\n(previous case of the session: %dx%d, actions %s)" % (before["w"], before["h"], " ; ".join(e_actions(before["st"])))
+                what += "\n(previous case of the session: %dx%d, actions %s)" % (before["w"], before["h"], " ; ".join(a for a, _ in e_actions(before)))
             ctx.violation(what + "\n[%s]" % v, {"e_case": c, "got": got, "record": rec, "verdict": v, "kf": classify(rec, v)})
     ctx.cov["traces_validated_against_impl"] += total
     ctx.cov["evaluations"] += total
@@ -534,7 +674,26 @@ def e_evaluate(ctx, fzf, name, cases, groups, ngroups, results):
     ctx.cov["e_sessions"] = ctx.cov.get("e_sessions", 0) + len(groups)
     ctx.cov["e_configurations"] = ctx.cov.get("e_configurations", 0) + ngroups
     ctx.cov["e_" + name] = {"exported": len(cases), "configurations": ngroups, "sessions": len(groups), "replayed": total}
+    done = [c for ix in results for c, _, _ in results[ix]]
+    if name == "tabs":
+        ctx.cov["e_tabs"].update({
+            "sessions_with_coloured_input": sum(1 for ix in results if e_ansi(name, ix)),
+            "replayed_by_tabstop": {str(t): sum(1 for c in done if c["cfg"]["tabstop"] == t) for t in sorted({c["cfg"]["tabstop"] for c in done})},
+            "replayed_with_pattern": sum(1 for c in done if c["st"]["pattern"]),
+            "lines_fitting_exactly_or_one_column_short": sum(c["fitEdge"] for c in done)})
+    if name == "prompt":
+        wide = set("".join(P_WIDE))
+        ctx.cov["e_prompt"].update({
+            "query_wider_than_area": sum(1 for c in done if c["longer"]),
+            "wide_left_of_cursor_not_at_end": sum(1 for c in done if c["longer"] and c["st"]["cx"] < len(c["st"]["input"])
+                                                  and wide & set(c["st"]["input"][c["st"]["xoffset"]:c["st"]["cx"]])),
+            "scrolled": sum(1 for c in done if c["st"]["xoffset"] > 0),
+            "with_border": sum(1 for c in done if c["cfg"]["border"])})
     return total
+
+
+def ansi_lines(case, ansi):
+    return [colour_item(uncells(x), k) for k, x in enumerate(case["items"])] if ansi else []
 
 
 # ------------------------------------------------------------------------------------------------ the check
@@ -552,7 +711,9 @@ def make_jobs(ctx):
         w, h = rng.choice(SIZES_W), rng.choice(SIZES_H)
         jobs.append((scfg, items, make_steps(rng, rng.randint(ctx.pick(10, 14), ctx.pick(22, 34)), scfg.multi, w, h,
                                              vis=0.2 if k % 3 == 0 else 0.06), w, h))
-    return jobs + make_hjobs(ctx)
+    kinds = [(jobs, "base"), (make_hjobs(ctx), "long"), (make_tjobs(ctx), "tabs"), (make_pjobs(ctx), "prompt")]
+    dev = os.environ.get("VERIF_C15_DEV")          # development aid: run only the named E families / kinds of J sessions
+    return [j for js, kind in kinds for j in js if not dev or kind in dev.split(",")]
 
 
 # ---- sessions over lines that are too long for the window: which part is displayed, and what it leaves behind
@@ -632,6 +793,169 @@ def make_hjobs(ctx):
         jobs.append((scfg, items, steps, w, h))
     return jobs
 
+# ---- sessions over lines with TAB characters: tab stops, with and without highlighted / coloured parts
+def tab_width(text, ts):
+    """Columns a line takes with its TABs expanded - used by the DRIVER only, to choose window widths a line fits exactly
+    or misses by one column (what the screen must show is TLC's business)."""
+    col = 0
+    for ch in text:
+        if ch == "\t":
+            col += ts - col % ts
+        else:
+            col += 2 if unicodedata.east_asian_width(ch) in ("W", "F") else 1
+    return col
+
+
+def tab_line(rng, marks, wide=False, length=None):
+    """Fields of lower-case letters and digits separated by TABs (some empty: TAB TAB, leading / trailing TAB); the
+    upper-case markers are put in once each: marks = (first field, a middle field, LAST field), so that a query made of a
+    marker matches before, between and after TABs."""
+    nf = rng.choice([2, 3, 3, 4, 5, 8]) if length is None else max(2, length // 9)
+    fields = []
+    for _ in range(nf):
+        n = rng.choice([0, 1, 2, 3, 5, 7, 8, 9, 12]) if length is None else rng.choice([6, 7, 8, 9, 15, 16])
+        f = [rng.choice("abcdefghijklmnopqrstuvwxyz0123456789-_./") for _ in range(n)]
+        if wide and f and rng.random() < 0.4:
+            f[rng.randrange(len(f))] = rng.choice(H_WIDE)
+        fields.append(f)
+    st, mid, end = marks
+    if st:
+        p = rng.randint(0, len(fields[0]))
+        fields[0][p:p] = st
+    if mid:
+        f = fields[len(fields) // 2]
+        p = rng.randint(0, len(f))
+        f[p:p] = mid
+    if end:
+        fields[-1] += list(end)
+    if rng.random() < 0.15:
+        fields.insert(0, [])
+    return "\t".join("".join(f) for f in fields)
+
+
+def colour_random(rng, text):
+    """One or two parts of the line wrapped in SGR sequences; a part may contain TABs or end right before one."""
+    n = len(text)
+    if n == 0:
+        return text
+    cuts = sorted({rng.randint(0, n) for _ in range(rng.choice([2, 2, 4]))} | ({text.index("\t")} if "\t" in text and rng.random() < 0.6 else set()))
+    out, at, on = [], 0, False
+    for c in cuts + [n]:
+        seg = text[at:c]
+        if on and seg:
+            out.append(rng.choice(["\x1b[31m", "\x1b[1;32m", "\x1b[4m", "\x1b[38;5;208m", "\x1b[44m"]) + seg + rng.choice(["\x1b[m", "\x1b[0m"]))
+        else:
+            out.append(seg)
+        on = not on
+        at = c
+    if "\x1b" not in "".join(out):
+        return "\x1b[31m" + text[:1] + "\x1b[m" + text[1:]
+    return "".join(out)
+
+
+def make_tjobs(ctx):
+    rng = ctx.rng
+    jobs = []
+    for k in range(ctx.pick(14, 120)):
+        letters = rng.sample("ABCDEFGHIJKLMNOPQRSTUVWXYZ", 8)
+        st, mid, end = "".join(letters[0:2]), "".join(letters[2:5]), "".join(letters[5:8])
+        border = rng.random() < 0.4
+        hscroll = rng.random() < 0.35              # (cut in front: tab stops of the displayed part, see FzfScreen.WindowT)
+        ts = rng.choice([1, 2, 3, 4, 4, 8, 8, None])
+        ansi = k % 5 in (1, 3)
+        scfg = SCfg(layout=rng.choice(["default", "reverse", "reverse-list"]), info=rng.choice(["default", "default", "inline", "hidden"]),
+                    sep=rng.random() < 0.7, header=rng.choice([None, None, "HEAD"]), nhl=0 if ansi else rng.choice([0, 0, 1]),
+                    header_first=False, inputless=False, prompt=None, pointer=rng.choice([None, None, "=>"]), marker=None,
+                    # (cut in front behind an ellipsis that is not two columns wide: FzfScreen.DevTabStops; not inside a border, where
+                    # the overflowing text takes the frame with it for the rest of the session)
+                    ellipsis=(rng.choice([None, ".."]) if border else rng.choice([None, "..", None, "..", "~", "", "...", "\u2026"])) if hscroll
+                    else rng.choice([None, None, "~", "", "..."]),
+                    multi=rng.choice([None, 3, "inf"]), cycle=False, scroll_off=rng.choice([None, 0]), disabled=False, hscroll=hscroll,
+                    hscroll_off=rng.choice([None, None, 0, 5]), keep_right=hscroll and rng.random() < 0.2, scrollbar=rng.random() < 0.3,
+                    border=border, nosort=rng.random() < 0.5, tabstop=ts, ansi=ansi)
+        n = rng.choice([3, 5, 8, 12])
+        plain_items = []
+        for i in range(n):
+            marks = (st if rng.random() < 0.9 else None, mid if rng.random() < 0.9 else None, end if rng.random() < 0.9 else None)
+            plain_items.append(tab_line(rng, marks, wide=(k % 4 == 3), length=rng.choice([None, None, None, 60])))
+        if k % 2 == 0:
+            plain_items.append(rng.choice(["ab\tX|", "abc\tY|", "abcdefg\tZ|", "b\tb\tW|", "a\t1234567890123456789012345678\t|"]))
+        items = [colour_random(rng, x) for x in plain_items] if ansi else plain_items
+        # window widths: some line fits exactly / misses by one column (room = width - pointer - marker - 1 reserved, inside a
+        # border 3 columns less)
+        ind = (2 if scfg.pointer is None else len(scfg.pointer) + 1) + 1 + (3 if border else 0)
+        edge = sorted({tab_width(x, ts or 8) + ind + d for x in plain_items for d in (0, -1, 1) if 20 <= tab_width(x, ts or 8) + ind + d <= 90})
+        widths = edge or [rng.randint(20, 60)]
+        w, h = rng.choice(widths), rng.choice([6, 7, 8, 10, 12, 16]) + (2 if border else 0)
+        queries = [st, mid, end, end, st + " " + end, mid + " " + end, st[0], mid.lower(), end.lower(), st[:1] + mid[:1] + end[:1], end + "QQ", "", "a", "b"]
+        steps = []
+        for _ in range(rng.randint(ctx.pick(9, 12), ctx.pick(14, 22))):
+            r = rng.random()
+            if r < 0.45:
+                steps.append(("post", "change-query(%s)" % rng.choice(queries) if rng.random() < 0.9 else "clear-query"))
+            elif r < 0.55:
+                steps.append(("post", rng.choice(["backward-delete-char", "put(%s)" % end[-1], "beginning-of-line+delete-char", "unix-line-discard+put(%s)" % mid])))
+            elif r < 0.68:
+                steps.append(("post", rng.choice(["down", "up", "down+down+down", "last", "first", "toggle+down", "pos(4)", "toggle-all"])))
+            elif r < 0.74:
+                steps.append(vis_step(rng))
+            elif r < 0.80:
+                steps.append(("type", rng.choice(list(st + mid + end + "ab"))))
+            else:
+                steps.append(("resize", [rng.choice(widths), rng.choice([6, 8, 10, 13]) + (2 if border else 0)]))
+        jobs.append((scfg, items, steps, w, h))
+    # directed: lines with TABs cut in FRONT behind an ellipsis that is not two columns wide (FzfScreen.DevTabStops): the right
+    # end kept by --keep-right, and a match at the end of the line
+    for border, ell, keep in ((True, "...", True), (False, "", False))[:ctx.pick(2, 2)]:
+        scfg = SCfg(layout="default", info="default", sep=True, header=None, nhl=0, header_first=False, inputless=False, prompt=None,
+                    pointer=None, marker=None, ellipsis=ell, multi=None, cycle=False, scroll_off=None, disabled=False, hscroll=True,
+                    hscroll_off=None, keep_right=keep, scrollbar=False, border=border, nosort=True, tabstop=None)
+        items = ["x" * 50 + "abcde\t" + "y" * 10, "second", "x" * 54 + "Q\tabc\tdefghijk\tZ"]
+        # (inside the border only the first screen is observed: the text that runs over the frame takes it along for good)
+        steps = [] if border else [("post", "change-query(Q)"), ("post", "change-query(Z)"), ("post", "clear-query"), ("resize", [31, 8]),
+                                   ("post", "change-query(Q)"), ("post", "clear-query")]
+        jobs.append((scfg, items, steps, 30 + (3 if border else 0), 8))
+    return jobs
+
+
+# ---- sessions over queries that are wider than the prompt area
+def make_pjobs(ctx):
+    rng = ctx.rng
+    jobs = []
+    for k in range(ctx.pick(10, 100)):
+        border = rng.random() < 0.5
+        scfg = SCfg(layout=rng.choice(["default", "reverse", "reverse", "reverse-list"]),
+                    info=rng.choice(["default", "inline", "inline", "right", "hidden", "inline-right"]), sep=rng.random() < 0.7,
+                    header=rng.choice([None, None, "HEAD"]), nhl=0, header_first=rng.random() < 0.2, inputless=False,
+                    prompt=rng.choice([None, None, "Q: ", "$"]), pointer=None, marker=None, ellipsis=None, multi=rng.choice([None, "inf"]),
+                    cycle=False, scroll_off=None, disabled=rng.random() < 0.6, border=border)
+        items = [rng.choice(ASCII_POOL) for _ in range(rng.choice([0, 2, 5, 9]))]
+        w, h = rng.randint(20, 40), rng.choice([4, 5, 6, 8, 10]) + (2 if border else 0)
+        qs = [long_query(rng, rng.choice(P_KINDS + ("wide-start", "mixed", "wide-all")))[0] for _ in range(3)]
+        steps = [("post", "change-query(%s)" % qs[0])]
+        for _ in range(rng.randint(ctx.pick(12, 16), ctx.pick(20, 32))):
+            r = rng.random()
+            if r < 0.12:
+                steps.append(("post", "change-query(%s)" % rng.choice(qs)))
+            elif r < 0.56:
+                steps.append(("post", rng.choice(["beginning-of-line", "end-of-line", "backward-char", "forward-char", "backward-word", "forward-word",
+                                                  "+".join(["forward-char"] * rng.randint(2, 14)), "+".join(["backward-char"] * rng.randint(2, 14)),
+                                                  "beginning-of-line+" + "+".join(["forward-char"] * rng.randint(1, 12)),
+                                                  "end-of-line+" + "+".join(["backward-char"] * rng.randint(1, 12))])))
+            elif r < 0.68:
+                steps.append(("key", rng.choice(["Left", "Right", "Home", "End", "C-a", "C-e", "C-b", "C-f", "S-Left", "S-Right"])))
+            elif r < 0.76:
+                steps.append(("post", rng.choice(["backward-delete-char", "delete-char", "backward-kill-word", "kill-word", "put(x)", "put(%s)" % P_WIDE[0],
+                                                  "put(%s)" % P_WIDE[1][0], "unix-word-rubout", "kill-line", "yank"])))
+            elif r < 0.84:
+                steps.append(("type", rng.choice(["q", "Z", "7", P_WIDE[0][0], P_WIDE[1][1]])))
+            elif r < 0.88:
+                steps.append(vis_step(rng))
+            else:
+                steps.append(("resize", [rng.randint(20, 40), rng.choice([4, 6, 8]) + (2 if border else 0)]))
+        jobs.append((scfg, items, steps, w, h))
+    return jobs
+
 
 def classify(rec, verdict):
     """Signature of a rejected screen (for known_findings.json).  A named deviation of the specification (verdict
@@ -641,10 +965,13 @@ def classify(rec, verdict):
         kind = verdict.split()[1]
         return {"site": {"info-tail-not-cleared": "printInfoImpl", "missing-header-lines-not-cleared": "printHeaderImpl",
                          "rows-not-cleared-after-header-toggle-reverse-list": "printList",
-                         "keep-right-lost-after-exclude": "printHighlighted"}.get(kind, "resizeIfNeeded"), "kind": kind}
+                         "keep-right-lost-after-exclude": "printHighlighted",
+                         "tab-stops-assume-two-column-ellipsis": "trimLeft"}.get(kind, "resizeIfNeeded"), "kind": kind}
     return {"site": "terminal.render", "verdict": verdict.split()[0] if verdict else "", "claims": sorted(verdict.split()[1:]),
             "layout": c["layout"], "info": c["info"], "hscroll": c["hscroll"], "keepRight": c["keepRight"], "border": c["border"],
-            "scrollbar": bool(c["scrollbar"]), "sections_toggled": bool(rec.get("vis")), "pattern": bool(rec["st"]["pattern"])}
+            "scrollbar": bool(c["scrollbar"]), "sections_toggled": bool(rec.get("vis")), "pattern": bool(rec["st"]["pattern"]),
+            "tabs": any("TAB" in t for t in rec["st"]["texts"]),
+            "query_wider_than_window": len(rec["st"]["input"]) + len(c["prompt"]) + (4 if c["border"] else 1) > rec["w"]}
 
 
 def verdicts(res):
@@ -658,13 +985,21 @@ def verdicts(res):
 def run(ctx):
     # (1) the design: placement, claims, truncation, horizontal scrolling on small constants - and, side by side with
     # it, the export of the E cases (six TLC processes, four workers each)
-    mcs = (["MC_Screen_place_q.cfg", "MC_Screen_q.cfg", "MC_Screen_cut_q.cfg", "MC_Screen_h_q.cfg"] if ctx.quick else
-           ["MC_Screen_place.cfg", "MC_Screen.cfg", "MC_Screen_cut.cfg", "MC_Screen_h.cfg"])
+    mcs = (["MC_Screen_place_q.cfg", "MC_Screen_q.cfg", "MC_Screen_cut_q.cfg", "MC_Screen_h_q.cfg", "MC_Screen_tab_q.cfg"] if ctx.quick else
+           ["MC_Screen_place.cfg", "MC_Screen.cfg", "MC_Screen_cut.cfg", "MC_Screen_h.cfg", "MC_Screen_tab.cfg"])
     families = [] if ctx.replay else sorted(E_FAMILIES)
-    with ThreadPoolExecutor(max_workers=6) as ex:
-        fgen = {name: ex.submit(e_generate, ctx, name) for name in families}
-        results = list(ex.map(lambda cfgname: ctx.tlc("MC_Screen", cfgname, timeout=3000, workers=4, coverage=True), mcs))
+    if os.environ.get("VERIF_C15_DEV"):
+        families = [f for f in families if "e-" + f in os.environ["VERIF_C15_DEV"].split(",")]
+    pin = None if ctx.replay else make_pin(ctx)         # (seeded choices: in this thread)
+    with ThreadPoolExecutor(max_workers=9) as ex:
+        fgen = {name: ex.submit(e_generate, ctx, name, pin) for name in families}
+        results = list(ex.map(lambda cfgname: ctx.tlc("MC_Screen", cfgname, timeout=3000, workers=ctx.pick(3, 4), coverage=True), mcs))
         ecases = {name: fgen[name].result() for name in families}
+    # the named deviation "tab-stops-assume-two-column-ellipsis" at design level: TLC must exhibit a row wider than its room
+    dev = ctx.tlc("MC_Screen", "MC_Screen_dev_tabpre.cfg", workers=1, timeout=900, expect_ok=False)
+    if dev.code != 12 or not any("InvTabPre2Room" in e for e in dev.errors):
+        raise Infra("MC_Screen_dev_tabpre.cfg: expected a counterexample to InvTabPre2Room (exit 12), got exit %d\n%s" % (dev.code, dev.tail(20)))
+    ctx.cov.setdefault("deviation_counterexamples", []).append("InvTabPre2Room")
     for res in results:                                 # (the bookkeeping of ctx.mc, done in one thread)
         ctx.cov["states"] += res.distinct
         ctx.cov["transitions"] += res.generated
@@ -699,7 +1034,7 @@ def run(ctx):
         return recs
     records = []
     with ThreadPoolExecutor(max_workers=len(families) + 1) as outer:
-        fe = {name: outer.submit(e_sessions, ctx, fzf, name, eplans[name][0], 4) for name in families}
+        fe = {name: outer.submit(e_sessions, ctx, fzf, name, eplans[name][0], 3) for name in families}
         with ThreadPoolExecutor(max_workers=6) as ex:
             for recs in ex.map(do, range(len(jobs))):
                 records += recs
@@ -769,6 +1104,20 @@ def run(ctx):
     ctx.cov["screens_with_scrollbar_option"] = sum(1 for r in records if r["cfg"]["scrollbar"])
     ctx.cov["rows_reaching_right_edge"] = sum(1 for r in records for row in r["rows"] if len(row) >= r["w"] - 1)
     ctx.cov["query_longer_than_line"] = sum(1 for r in records if len(r["st"]["input"]) > r["w"] - len(r["cfg"]["prompt"]) - 1)
+    wide = set("".join(P_WIDE) + H_WIDE)
+    tabrecs = [r for r in records if any("TAB" in t for t in r["st"]["texts"])]
+    ctx.cov["screens_with_tab_lines"] = len(tabrecs)
+    ctx.cov["screens_with_tab_lines_and_pattern"] = sum(1 for r in tabrecs if r["st"]["pattern"])
+    ctx.cov["screens_with_tab_lines_by_tabstop"] = {str(t): sum(1 for r in tabrecs if r["cfg"]["tabstop"] == t)
+                                                    for t in sorted({r["cfg"]["tabstop"] for r in tabrecs})}
+    ctx.cov["sessions_with_coloured_tab_lines"] = sum(1 for j in jobs if j[0].ansi)
+    longq = [r for r in records if not r["cfg"]["inputless"] and
+             sum(2 if ch in r["wide"] else 1 for ch in r["st"]["input"]) > r["w"] - (3 if r["cfg"]["border"] else 0) - len(r["cfg"]["prompt"]) - 1]
+    ctx.cov["query_wider_than_prompt_area"] = len(longq)
+    ctx.cov["query_wider_cursor_not_at_end"] = sum(1 for r in longq if r["st"]["cx"] < len(r["st"]["input"]))
+    ctx.cov["query_wider_wide_chars_left_of_cursor_not_at_end"] = sum(
+        1 for r in longq if r["st"]["cx"] < len(r["st"]["input"]) and wide & set(r["st"]["input"][r["st"]["xoffset"]:r["st"]["cx"]]))
+    ctx.cov["query_scrolled"] = sum(1 for r in records if r["st"]["xoffset"] > 0)
     ctx.cov["mismatch_verdicts"] = sorted(set(vd.values()))
     for r in records:
         if r["st"]["list"] and r["st"]["sel"] and len(ctx.cov["samples"]) < 3:
@@ -776,14 +1125,23 @@ def run(ctx):
                         "query": "".join(r["st"]["input"]), "cy": r["st"]["cy"], "offset": r["st"]["offset"], "sel": r["st"]["sel"],
                         "rows": ["".join(x) for x in r["rows"]]})
     ctx.assumptions += [
-        "comparable configuration: --no-color --no-unicode, full screen, no margin/padding/preview, --border only as the default box, "
-        "single-line items without tabs or control characters; colours and attributes are not observed (capture-pane -p); "
-        "horizontal scrolling, scrollbar and border only in the sessions over long lines and the hscroll E cases",
+        "comparable configuration: --no-color --no-unicode (coloured --ansi input: --color=dark; only the text of the screen is "
+        "observed), full screen, no margin/padding/preview, --border only as the default box, single-line items without control "
+        "characters other than TAB; colours and attributes are not observed (capture-pane -p); horizontal scrolling, scrollbar and "
+        "border only in the sessions over long lines, TAB lines and long queries and in the hscroll / tabs / prompt E cases",
+        "TAB: tab stops every --tabstop columns counted from the first character of the line's text (man fzf only says 'number of "
+        "spaces for a tab character'); exact rows for lines that are complete or cut behind; a line with TABs that horizontal "
+        "scrolling cuts in front is expanded anew from the start of what is displayed (code-derived); no TABs in queries, "
+        "--header texts or prompts",
         "the exact part shown of a too long line is demanded where the match position does not depend on the matching algorithm "
         "(plain terms whose characters occur once in the line, ASCII / wide cells); otherwise the row is held to the claims "
         "(a contiguous part, ellipsis exactly where something was cut, never wider than the room for the text)",
         "character widths: East Asian Wide/Fullwidth = 2 columns, combining marks = 0, everything else 1 (width table in each record)",
         "the screen is judged at settle points only (trace quiet, no redraw pending, two identical captures); the cursor position "
-        "is not observed; a query longer than the prompt line is only required to show a part around the cursor",
+        "is not observed (its column is computed from the state and required to lie inside the prompt area); a query wider than "
+        "the prompt area: exact row given the logged scroll offset, and the logged offset must be one updatePromptOffset can leave "
+        "behind for the logged query / cursor / width (code-derived rule; no ellipsis is drawn on the prompt line); with an inline "
+        "info text that has no room left the row is held to the claims (contiguous part containing the cursor, never wider than "
+        "the area, border intact)",
         "windows at least 20 columns wide and 4 rows high"]
     return "model_checking"
